@@ -224,6 +224,7 @@ pub fn run(ctx: &mut Ctx) {
     ctx.floor("nyi.messages", 14);
     ctx.floor("nyi.extensions", 25);
     ctx.floor("nyi.records", 400);
+    ctx.floor("nyi.records-many-messages", 300);
     ctx.floor("ext.roundtrip", 3_000);
     ctx.floor("cke.forms", 1_500);
     ctx.floor("parsed-values.ok", 2_000);
@@ -396,6 +397,30 @@ pub fn run(ctx: &mut Ctx) {
             ctx.count("entry.calls");
             if !matches!(&res, Ok(b) if b.len() == want.len() + 2 && b[..2] == [0xA5, 0x5A] && b[2..] == want[..]) {
                 ctx.violation("c09:entry-point-differs:gen_tls_plaintext".into(), json!({"result": format!("{:.300?}", res.map(|b| hex_short(&b))), "reference_hex": hex_short(&want), "writer_prefix": "a55a"}));
+            }
+            // a writer that already holds 64 KiB .. 1 MiB (records are appended to one output stream): the bytes a record
+            // serializes to do not depend on where in the stream it is written
+            if case.idx % 16 == 0 {
+                for pre in [65530usize, 65536, 70_000, 1 << 20] {
+                    let res = gen_simple(gen_tls_plaintext(&rec), vec![0x11u8; pre]);
+                    ctx.eval();
+                    ctx.count("entry.large-writer");
+                    if !matches!(&res, Ok(b) if b.len() == want.len() + pre && b[pre..] == want[..] && b[..pre].iter().all(|x| *x == 0x11)) {
+                        ctx.violation("c09:entry-point-differs:gen_tls_plaintext:large-writer".into(), json!({"bytes_already_in_the_writer": pre, "result": format!("{:.120?}", res.map(|b| b.len())), "expected_len": want.len() + pre}));
+                    }
+                }
+                // the same through one write context (records chained with cookie-factory combinators, as a caller
+                // writing a flight into one buffer does): the context's position is then non-zero when the record starts
+                for pre in [1usize, 65530, 65536, 70_000, 1 << 20] {
+                    let prefix = vec![0x22u8; pre];
+                    let res = gen_simple(cookie_factory::sequence::tuple((cookie_factory::combinator::slice(&prefix), gen_tls_plaintext(&rec), gen_tls_plaintext(&rec))), Vec::new());
+                    ctx.eval();
+                    ctx.count("entry.chained-context");
+                    let n = want.len();
+                    if !matches!(&res, Ok(b) if b.len() == 2 * n + pre && b[pre..pre + n] == want[..] && b[pre + n..] == want[..] && b[..pre].iter().all(|x| *x == 0x22)) {
+                        ctx.violation("c09:entry-point-differs:gen_tls_plaintext:chained-context".into(), json!({"bytes_written_before_in_the_same_context": pre, "result": format!("{:.120?}", res.map(|b| b.len())), "expected_len": 2 * n + pre}));
+                    }
+                }
             }
         }
         match rec.serialize() {
@@ -631,6 +656,38 @@ pub fn run(ctx: &mut Ctx) {
                             ctx.count("nyi.records");
                         } else {
                             ctx.violation(format!("c09:unsupported-in-record:ct=0x{:02x}:{}", ct, kind(&bad)), json!({"content_type": ct, "hdr_len": hl, "messages": n, "result": format!("{:.120?}", res)}));
+                        }
+                    }
+                }
+            }
+        }
+        // the same with very many messages in the record (counts around the record cap, 2^15, 2^16 and beyond), the
+        // unsupported one first, in the middle or last: the answer is NotYetImplemented, not another error
+        for ct in [0x14u8, 0x15, 0x16, 0x17] {
+            for bad in [AMsg::Alert(1, 0), AMsg::App(vec![]), AMsg::Hs(AHs::ServerDone(vec![])), AMsg::Hs(AHs::Certificate(vec![]))] {
+                for n in [16639usize, 16640, 16641, 16642, 32768, 65535, 65536, 70000] {
+                    for pos in [0, n / 2, n - 1] {
+                        let filler = if ct == 0x16 { AMsg::Hs(AHs::HelloRequest) } else { AMsg::Ccs };
+                        let fv = filler.expected();
+                        let mut msg: Vec<TlsMessage> = Vec::with_capacity(n);
+                        for i in 0..n {
+                            msg.push(if i == pos { bad.expected() } else { fv.clone() });
+                        }
+                        let rec = TlsPlaintext { hdr: TlsRecordHeader { record_type: TlsRecordType(ct), version: TlsVersion(0x0303), len: 0 }, msg };
+                        let res = rec.serialize();
+                        let res2 = gen_simple(gen_tls_plaintext(&rec), Vec::new());
+                        ctx.evals(2);
+                        ctx.shape(&("nyi-record-many", ct, kind(&bad), lc(n)));
+                        if is_nyi(&res) && is_nyi(&res2) {
+                            ctx.count("nyi.records-many-messages");
+                        } else if matches!(bad.expected().serialize(), Ok(b) if b == bad.to_bytes()) {
+                            // support for this message has been added (and is correct): no longer an unsupported value
+                            ctx.unjudged("serializer-now-supports-message-in-record");
+                        } else {
+                            ctx.violation(
+                                format!("c09:unsupported-in-record:many-messages:ct=0x{:02x}:{}", ct, kind(&bad)),
+                                json!({"content_type": ct, "messages": n, "position_of_unsupported": pos, "serialize": format!("{:.120?}", res.map(|b| b.len())), "gen_tls_plaintext": format!("{:.120?}", res2.map(|b| b.len()))}),
+                            );
                         }
                     }
                 }
